@@ -137,6 +137,9 @@ func (x *Nat) trim() *Nat {
 
 // set assigns x = y, optionally resizing x to the appropriate size.
 func (x *Nat) set(y *Nat) *Nat {
+	if x == y {
+		return x // reset would clear the limbs about to be copied
+	}
 	x.reset(len(y.limbs))
 	copy(x.limbs, y.limbs)
 	return x
